@@ -24,9 +24,10 @@ claim('C11', 'bounded symbolic execution of the real _read_header + regex-inclus
 
 claim('C17', 'symbolic execution of the real _read_until on an interval-abstract stream (pure LIA: block size, stream length, positions are unbounded symbolic integers) + byte-level symbolic runs of the whole reader',
       'One symbolic run of the real DiffXReader._read_until covers every read-ahead block size k>=1, every stream '
-      'length, start offset and delimiter position (all z3 Ints) for searches needing at most 4 (quick) / 9 (thorough) '
+      'length, start offset and delimiter position (all z3 Ints) for searches needing at most 4 (quick) / 12 (thorough) '
       'reads: returned chunks tile [pos0, d+1) exactly, the stream is left at d+1, eof flag correct. The whole reader '
-      'is additionally run at byte level with forced block sizes and header paddings and symbolic diff content, and on '
+      'is additionally run at byte level with forced block sizes and header paddings (the padded header is the first, '
+      'the .change or the diff header right before the content; LF and CRLF header lines) and symbolic diff content, and on '
       'streams already positioned at an offset > 0, and on streams offering peek() with explored short / long results.',
       BASE_NOTE + ' Searches needing more reads than the bound are cut and counted in the evidence. The block-size knob '
       '(parameter or constant) is found by reflection on the current source; without one only the natural block size runs.',
@@ -100,7 +101,8 @@ claim('C08', 'bounded symbolic execution of the real reader and DOM loader on co
       'fallback would be flagged in the evidence.', 'DESIGN.md section 4, C08; II.5c')
 
 claim('C07', 'bounded symbolic execution of the real reader on every truncation F[:p] of files with symbolic content, records compared with the intact file\'s records by z3; length perturbations',
-      'For three skeleton files with a symbolic content section (1..3 bytes quick / 1..6 thorough + LF) and every cut '
+      'For three (thorough: five, incl. CRLF header lines and a change-level preamble) skeleton files with a symbolic '
+      'content section (1..3 bytes quick / 1..8 thorough, ending in LF) and every cut '
       'point 0..len(F), the real reader is run on the intact file and on the truncated file in the same symbolic '
       'path (container headers carry options, so that a cut header may still look like a header); z3 decides that the '
       'records of the truncated file are a prefix of the intact ones (ids, options, content), '
@@ -186,6 +188,8 @@ claim('C20', 'bounded symbolic execution of the DiffX lexer through the real Pyg
       '0..4 / 0..6 symbolic code points, and on UTF-8 files produced by the real writer with a symbolic content section '
       'without "#.": every path terminates, the concatenated token values equal the input, and for writer files no '
       'Error token occurs and the Name.Tag header tokens are the file\'s headers in order; a realistic diff with '
-      'symbolic characters ending one of its lines likewise.',
+      'symbolic characters ending one of its lines likewise. Termination in practice: on writer files with 24 (thorough up '
+      'to 48) characters of prose + 3-4 symbolic characters the number of steps of the backtracking search, counted in the '
+      'node-for-node regex model, stays within 8 n^2 + 5000 (replay: native lexer on a longer run under 10 s).',
       BASE_NOTE + ' JsonLexer is an identity stub, DiffLexer a line-based stub (Error tokens for a chunk without final newline) '
       'in symbolic runs; both real in replays.', 'DESIGN.md section 4, C20')
